@@ -684,8 +684,13 @@ class Ref(object):
            ((pm["config"] & W.PC_NO_RECV_STP) and stp)
     if not drop and (mdl.flags & 3) == 1:
       k = F.l2(raw)
-      if k["ethertype"] == F.ETH_IP:
-        off = k["l3off"]
+      et, off = k["ethertype"], k["l3off"]
+      while et == 0x8100 and len(raw) >= off + 4:
+        # (further 802.1Q tags: the datagram inside is a fragment all the
+        # same, whatever the 12-tuple calls the frame)
+        et = (raw[off + 2] << 8) | raw[off + 3]
+        off += 4
+      if et == F.ETH_IP and len(raw) >= off + 20:
         fo = (raw[off + 6] << 8) | raw[off + 7]
         if fo & 0x3fff:
           drop = True     # OFPC_FRAG_DROP
@@ -702,6 +707,16 @@ class Ref(object):
       return
     mdl.rx[port][0] += 1
     mdl.rx[port][1] += len(raw)
+    ps = self.world.switch.port_stats.get(port)
+    if ps is not None and not self.table_reinjected and \
+        (ps.rx_packets, ps.rx_bytes) != tuple(mdl.rx[port]):
+      # (before looking at what the table did with it: a frame the port
+      # accepted is a frame received)
+      self.dev("C12", "counters/frame-not-counted", "port %d accepted a "
+               "%d-byte frame; its rx counters are now (%d, %d), frames "
+               "actually received (%d, %d)"
+               % (port, len(raw), ps.rx_packets, ps.rx_bytes,
+                  mdl.rx[port][0], mdl.rx[port][1]))
     self.process_lookup(port, body, wire=raw)
     self.no_more_packet_ins("frame")
     self.sync()
